@@ -251,7 +251,7 @@ def _run_main(ctx):
         # interaction grid: every lambda form x every kind of rho schedule (a schedule that ENDS at a rho different
         # from the initial one is what a stale rho-dependent precomputation would get wrong)
         for lk in ("scalar", "const-matrix", "matrix"):
-            for sched in ("up", "down", "balance"):
+            for sched in ("up", "down", "balance", "spike"):
                 probs.append({"problem": True, "N": ctx.rng.choice([2, 3]), "W": ctx.rng.choice([2, 3]),
                               "seed": ctx.rng.randrange(2 ** 31), "rho": 1.0, "rho_update": True,
                               "unconditional": False, "grid_lambda": lk, "grid_sched": sched})
@@ -295,6 +295,9 @@ def _run_main(ctx):
                         return rho_ * 1.5 if _c["n"] <= 4 else rho_
                     if _s == "down":
                         return rho_ / 1.5 if _c["n"] <= 4 else rho_
+                    if _s == "spike":
+                        # a transient: a huge step parameter for exactly one sweep, restored on the next call (twice)
+                        return {2: rho_ * 1e6, 3: rho_ / 1e6, 6: rho_ * 1e5, 7: rho_ / 1e5}.get(_c["n"], rho_)
                     if _c["n"] > 25:
                         return rho_
                     return rho_ * 2 if rp > 10 * rd else (rho_ / 2 if rd > 10 * rp else rho_)
@@ -316,8 +319,12 @@ def _run_main(ctx):
             with tu.patched(solver, "check_convergence", cc), warnings.catch_warnings():
                 warnings.simplefilter("ignore")
                 res = admm.admm_optimize_theta(S.copy(), lam, W, N, rho=rho, rho_update=cb)
-            stopped = bool(calls and calls[-1][0])
             iters = len(calls) + 1
+            # "stops before exhausting its iteration budget": the rule fired at the last check, OR the solver returned
+            # after fewer sweeps than its budget for whatever reason - the returned matrix is held to the same standard
+            stopped = bool(calls and calls[-1][0]) or iters < 1000
+            if iters < 1000 and not (calls and calls[-1][0]):
+                ctx.count("returned_early_without_the_rule")
             if stopped:
                 max_iter_seen = max(max_iter_seen, iters)
             ctx.count("stopped_by_rule" if stopped else "budget_exhausted")
@@ -348,7 +355,11 @@ def _run_main(ctx):
                         g = float(sum(G[R, C] for (R, C) in pos))
                         Lam = lambda_class_sum(lam, b, rr_, cc_, N, W)
                         zc = float(np.mean(vals))
-                        bound = 3 * math.sqrt(len(pos)) * (tol_d + rho_f * tol_p) + 1e-9 * (1 + abs(g))
+                        # X-update stationarity gives X^-1 - S = rho (U' + Z - Z_old) exactly and the Z-update's
+                        # optimality gives rho * sum_class U' in Lambda * d|z_class| exactly, so the class residual (with
+                        # the sign pattern of Z, which X's class mean shares beyond 2 tol_p) is rho * sum_class (Z - Z_old):
+                        # at most sqrt(r) times the DUAL tolerance - the step parameter does not enter
+                        bound = 3 * math.sqrt(len(pos)) * tol_d + 1e-9 * (1 + abs(g))
                         if abs(zc) > 2 * tol_p:
                             resid = abs(g - Lam * math.copysign(1, zc))
                         else:
